@@ -216,15 +216,23 @@ def ifaceLine (ist : Option IState) (w : List String) : Option IState × String 
     | some now, some key, some tmo, some body =>
       -- every request has its own http::context, hence its own cache_interface: empty trigger set, no recorders
       let pg : IState := { cache := st.cache }
-      let (pg1, o) := istep pg (.fetchPage now key false)
+      -- items in front of the marker `F` run before fetch_page (a prologue), the others between fetch_page and store_page
+      let items : List String := if ops == "-" then [] else ops.splitOn ";"
+      let hasF := items.contains "F"
+      let preW : List (List String) := if hasF then (items.takeWhile (· != "F")).map (·.splitOn ":") else []
+      let opw : List (List String) :=
+        ((if hasF then (items.dropWhile (· != "F")).filter (· != "F") else items)).map (·.splitOn ":")
+      let runOps := fun (start : IState × List String) (ws : List (List String)) =>
+        ws.foldl (fun (acc : IState × List String) w =>
+          match parseIOp w with
+          | some op => let (s', o) := istep acc.1 op; (s', acc.2 ++ [ioutStr o])
+          | none => (acc.1, acc.2 ++ ["bad-op"])) start
+      let (pg0, outs0) := runOps (pg, []) preW
+      let (pg1, o) := istep pg0 (.fetchPage now key false)
       match o with
       | .hit v => (some { st with cache := pg1.cache }, s!"cached {toHex v}" ++ itail pg1)
       | _ =>
-        let opw : List (List String) := if ops == "-" then [] else (ops.splitOn ";").map (·.splitOn ":")
-        let (pg2, outs) := opw.foldl (fun (acc : IState × List String) w =>
-          match parseIOp w with
-          | some op => let (s', o) := istep acc.1 op; (s', acc.2 ++ [ioutStr o])
-          | none => (acc.1, acc.2 ++ ["bad-op"])) (pg1, [])
+        let (pg2, outs) := runOps (pg1, outs0) opw
         let (pg3, _) := istep pg2 (.storePage now key body tmo)
         (some { st with cache := pg3.cache },
           "built " ++ (if outs.isEmpty then "-" else ";".intercalate outs) ++ itail pg3)
